@@ -80,9 +80,17 @@ CHECKS = [
         "floats as reals (math.isclose by its definition); capacity >= 0, lower <= upper limit; scale invariance of the quotient only "
         "per battery; metric fetcher's NaN dropping and cache eviction not under contract",
         "contract-based deductive verification: loop invariants + ghost recurrences + induction lemmas (z3, NRA)", "DESIGN.md 3 (C18)"),
+    chk("C17", "proof",
+        "Deductive proof over symbolic real-valued bounds: BatteryManager._get_bounds has the documented closed forms, its inclusion "
+        "bounds equal the advertised ones and its exclusion zone lies inside the advertised one, so _check_request accepts every "
+        "non-zero power the advertised bounds admit (both adjust_power settings); PowerBoundsCalculator.calculate computes those "
+        "advertised aggregates; an admitted power covers the sum of the groups' minimum powers.",
+        "structural bound (stated in evidence): one or two battery groups, up to two inverters per group, up to three batteries per "
+        "group, one fixed topology for PowerBoundsCalculator; all numeric data unbounded; floats as reals",
+        "contract-based deductive verification (z3, LRA), structural bound on topology", "DESIGN.md 3 (C17)"),
 ]
 
 _PENDING = "check under construction in this session (contracts not yet written); will be claimed once its obligations discharge"
 NOT_APPLICABLE = [
     {"property_id": "C12", "reason": "formula generators are graph algorithms over networkx.DiGraph (recursive dfs, successor-set classification); no contract within reach of the VC generator expresses 'the generated formula balances for every valid graph' (DESIGN.md 4)"},
-] + [{"property_id": f"C{n:02d}", "reason": _PENDING} for n in (1, 2, 5, 6, 9, 10, 14, 15, 17, 19, 20)]
+] + [{"property_id": f"C{n:02d}", "reason": _PENDING} for n in (1, 2, 5, 6, 9, 10, 14, 15, 19, 20)]
